@@ -34,7 +34,12 @@ func (obj Symbol) Readably(b []byte, p *Printer) []byte {
 		return append(b, p.caseName(string(obj))...)
 	}
 	quote := obj.looksLikeNumber()
-	for _, c := range []byte(obj) {
+	for i, c := range []byte(obj) {
+		if c == '&' && i == 0 {
+			// The reader accepts & at the start of a token, &rest and the
+			// other lambda list keywords are not quoted.
+			continue
+		}
 		if quote || needPipeMap[c] == 'x' {
 			b = append(b, '|')
 			for _, c := range []byte(p.caseName(string(obj))) {
